@@ -131,13 +131,22 @@ pub fn run_case(sb: &Sandbox, before: &BTreeMap<PathBuf, Option<Vec<u8>>>, c: &C
     if loc.contains("..") {
         g.with_dotdot += 1;
     }
-    let content = obj_bytes(13, 5);
+    // outcome 3: an EMPTY object (Transfer-Length 0, one packet without payload), complete
+    let content = if c.outcome == 3 { Vec::new() } else { obj_bytes(13, 5) };
     let md5 = if c.outcome == 1 { md5_b64(b"something else") } else { md5_b64(&content) };
     let exp = unix_to_ntp_secs(EPOCH_2027 + 3600).to_string();
-    let xml = FdtX::new(&exp).file(FileX::new("5", &loc).attr("Content-Length", "13").attr("Transfer-Length", "13").attr("Content-MD5", &md5)).xml();
+    let ls = content.len().to_string();
+    let xml = FdtX::new(&exp).file(FileX::new("5", &loc).attr("Content-Length", &ls).attr("Transfer-Length", &ls).attr("Content-MD5", &md5)).xml();
     let fdt = fdt_packets(TSI, 1, xml.as_bytes(), 8192, None, None);
     let mut pk: Vec<Vec<u8>> = fdt;
-    for j in 0..2usize {
+    if c.outcome == 3 {
+        let mut sp = rfc::Spec::minimal(rfc::FEC_NOCODE, TSI, 5);
+        sp.exts.push(rfc::fti_nocode(0, 8, 64));
+        sp.payload_id = rfc::pid(rfc::FEC_NOCODE, 0, 0, 0, 8);
+        sp.b = true;
+        pk.push(rfc::encode(&sp));
+    }
+    for j in 0..(if c.outcome == 3 { 0 } else { 2usize }) {
         let mut sp = rfc::Spec::minimal(rfc::FEC_NOCODE, TSI, 5);
         sp.exts.push(rfc::fti_nocode(13, 8, 64));
         sp.payload_id = rfc::pid(rfc::FEC_NOCODE, 0, j as u32, 0, 8);
@@ -166,7 +175,7 @@ pub fn run_case(sb: &Sandbox, before: &BTreeMap<PathBuf, Option<Vec<u8>>>, c: &C
         let _ = std::fs::create_dir_all(&sb.dest);
         return Some((
             "C05/destination-directory-removed".into(),
-            format!("Content-Location {:?} ({}): the destination directory itself no longer exists after the session", loc, ["complete", "error", "interrupted"][c.outcome as usize]),
+            format!("Content-Location {:?} ({}): the destination directory itself no longer exists after the session", loc, ["complete", "error", "interrupted", "empty object"][c.outcome as usize]),
         ));
     }
     let after = sb.snapshot();
@@ -218,7 +227,7 @@ pub fn run_case(sb: &Sandbox, before: &BTreeMap<PathBuf, Option<Vec<u8>>>, c: &C
         };
         return Some((
             format!("C05/escapes-destination/{}", kind),
-            format!("Content-Location {:?} ({}): outside the destination directory: {}", loc, ["complete", "error", "interrupted"][c.outcome as usize], diffs.join(", ")),
+            format!("Content-Location {:?} ({}): outside the destination directory: {}", loc, ["complete", "error", "interrupted", "empty object"][c.outcome as usize], diffs.join(", ")),
         ));
     }
     let n = sb.dest_files();
@@ -340,7 +349,7 @@ pub fn run(thorough: bool) -> i32 {
             let mut g = G::default();
             let mut found: BTreeMap<String, (String, Case)> = BTreeMap::new();
             for l in locs {
-                for outcome in 0..3u8 {
+                for outcome in 0..4u8 {
                     let c = Case { location: l.clone(), outcome };
                     if let Some((k, w)) = run_case(&sb, &before, &c, &mut g) {
                         found.entry(k).or_insert((w, c));
